@@ -5,7 +5,7 @@
    is an order-preserving merge of the two sources' message sequences l and r.  Rows are identified by
    Value.Compare = 0 (row_eqb), bags are signed multiplicities ([consolidate]).  The key expressions kl / kr are
    arbitrary functions of the record that respect row equality ([proj cols], column references, do). *)
-From Octo Require Import Joins JoinsBase JoinsProofs GenJoinProofs OuterJoinProofs OuterJoinProofs2 ChangelogLemmas.
+From Octo Require Import Joins JoinsBase JoinsProofs GenJoinProofs OuterJoinProofs OuterJoinProofs2 JoinsDoneProofs ChangelogLemmas.
 
 (* At end of stream (the node returned nil: phase Done, reached only after both sources closed) the consolidated
    output equals the relational join (NULL keys match nothing) of the complete consolidated inputs — for ALL
@@ -170,3 +170,37 @@ Theorem C19_outer_final_partial :
    phase st = Done /\ bag_eqb (records out) (outer_list k1 k1 true true 2 2 (msg_recs wnull_left) (msg_recs wnull_right)) = true).
 Proof. exact fixed_on_witnesses. Qed.
 Print Assumptions C19_outer_final_partial.
+
+(* REACHING Done.  The theorems above assume the node returned nil ([phase st = Done]).  For insert-only scripts
+   ([good_script]: records without retractions and watermarks in any order, then the close — in particular batch
+   inputs) EVERY interleaving ends in Done: no step of either join can hit the panic of `EventTimes[1:]` or an error. *)
+Theorem C19_reaches_done : forall kl kr l r sigma,
+  interleave l r sigma -> good_script l = true -> good_script r = true ->
+  phase (fst (sj_run_steps kl kr jinit sigma)) = Done.
+Proof.
+  intros kl kr l r sigma. exact (reaches_done (recv_stream kl kr true) true (recv_stream_ins_ok kl kr true) l r sigma).
+Qed.
+Print Assumptions C19_reaches_done.
+
+Theorem C19_outer_reaches_done : forall kl kr ol or nl nr l r sigma,
+  interleave l r sigma -> good_script l = true -> good_script r = true ->
+  phase (fst (oj_run_steps kl kr ol or nl nr jinit sigma)) = Done.
+Proof.
+  intros kl kr ol or nl nr l r sigma.
+  exact (reaches_done (recv_outer kl kr ol or nl nr true) false (recv_outer_ins_ok kl kr ol or nl nr true) l r sigma).
+Qed.
+Print Assumptions C19_outer_reaches_done.
+
+(* With retractions it is false for merely valid (never retracting an absent row, in arrival order) and well-timed
+   scripts: a retraction that is processed before the insertion it retracts — one without event time while the
+   insertion waits in the event-time buffer (witness below), or one with an earlier event time — reaches the panic in
+   both joins.  Recorded as the finding class `retraction-overtakes-insertion` (findings/C19.txt); the exact safe class
+   beyond insert-only scripts (every retraction has an own earlier insertion that is zero-time, or not later in event
+   time when both are timed) is NOT proved. *)
+Theorem C19_reaches_done_refuted :
+  interleave wpanic_left [MClose] wpanic_sigma /\
+  valid_changelog (msg_recs wpanic_left) = true /\ well_timed_from zero_ns wpanic_left = true /\
+  panicked (fst (sj_run k1 k1 jinit wpanic_sigma)) = true /\
+  panicked (fst (oj_run k1 k1 true true 1 1 jinit wpanic_sigma)) = true.
+Proof. exact overtaking_retraction_panics. Qed.
+Print Assumptions C19_reaches_done_refuted.
